@@ -24,7 +24,7 @@ RULE = ("states = models reachable from {pheno, pheno+depot, pheno_linear} by <=
         "whose code or statements differ from the input and both sides were evaluated")
 ASSUMPTIONS = ["a refactoring that refuses (ValueError/NotImplementedError/ModelError) is counted, not failed",
                "evaluators are documented for models without ODE systems; they are only judged there"]
-BOUNDS = {"quick": "states at depth <= 1 (full alphabet); single refactorings", "thorough": "depth <= 2; ordered pairs of refactorings on depth <= 1 states"}
+BOUNDS = {"quick": "states at depth <= 1 (full alphabet, capped at 36 states); single refactorings", "thorough": "depth <= 2; ordered pairs of refactorings on depth <= 1 states"}
 
 START = ["pheno", "pheno_oral", "pheno_linear"]
 
@@ -71,8 +71,7 @@ def refactorings():
         "joint_then_split": joint_then_split,
         "fix_and_replace_theta": fix_and_replace,
         "replace_non_random_rvs": pm.replace_non_random_rvs,
-        "update_inits_noop": lambda m: m.update_source(),
-        "simplify_dv": lambda m: m,  # placeholder keeps numbering stable
+        "update_source": lambda m: m.update_source(),
     }
 
 
@@ -91,7 +90,7 @@ def drive(tier):
 
     from vlib import seqx
 
-    return seqx.drive(sys.modules[__name__], tier, START, depth_limit=depth_limit(tier), max_states=120 if tier == "quick" else 1500)
+    return seqx.drive(sys.modules[__name__], tier, START, depth_limit=depth_limit(tier), max_states=36 if tier == "quick" else 600)
 
 
 def run_shard(shard, tier):
@@ -131,8 +130,8 @@ def check_state(hist, model, tier):
     fails = []
     counters = {"refactorings_applied": 0, "refactorings_refused": 0, "refactorings_crashed": 0, "evaluator_points": 0}
     try:
-        envs = mgraph.grid_envs(model)
-        base = mgraph.observe(model, envs)
+        envs = mgraph.grid_envs(model)[1:]
+        base = mgraph.observe(model, envs, max_ids=2)
     except (ireval.Unsupported, Undefined, ArithmeticError):
         return [], counters
     names = list(refactorings())
@@ -155,7 +154,7 @@ def check_state(hist, model, tier):
         counters["refactorings_applied"] += 1
         try:
             envs2 = _translate_envs(model, m, envs, combo)
-            obs = mgraph.observe(m, envs2)
+            obs = mgraph.observe(m, envs2, max_ids=2)
         except ireval.Unsupported:
             continue
         except (Undefined, ArithmeticError) as e:
